@@ -142,6 +142,14 @@ def gen_program(rng, module_mode=False, force_imports=None):
     text = '\n'.join(lines) + '\n'
     files = {'helper.py': HELPER + IMPORT_TRACE % 'helper', 'other.py': OTHER, 'pkgk/__init__.py': PKG_INIT, 'pkgk/sib.py': PKG_SIB, 'pkgk/sub/__init__.py': IMPORT_TRACE % 'pkgk.sub',
              'pkgk/sub/deep.py': PKG_DEEP, 'pkgk/sub/dpkg/__init__.py': PKG_DPKG}
+    # directories that are no packages (data, documentation, caches) next to the sub-package, under names that sort and hash all over the place:
+    # the walk of a selected package passes them by, whatever order the file system lists them in
+    for extra in ('a_data', 'docs', 'm_res', 'tmp_x', 'zz_more', 'data', '__pycache__', 'Sub', 'su', 'subx'):
+        files['pkgk/%s/notes.txt' % extra] = 'not python\n'
+    # ... and a few more small sub-packages among them
+    for extra in ('pa', 'pb', 'pc', 'pd', 'qe'):
+        files['pkgk/%s/__init__.py' % extra] = ''
+        files['pkgk/%s/m.py' % extra] = 'def mf_%s(x):\n    return x\n' % extra
     if module_mode:
         rel = ['from . import sib as rsib', 'from .sib import sg as rsg', 'from .sub import deep as rdeep', 'from .sub.deep import df as rdf']
         chosen = rng.sample(rel, rng.below(3) + 1)
